@@ -225,7 +225,7 @@ func runC04(r *mc.Run) {
 		// dates of the levels: the listed order decides, whatever the dates say
 		c04Dates(ti.TcbLevels, c.Choose("level-dates", 5))
 		// TDX module identities
-		mod := c.Choose("module", 3)
+		mod := c.Choose("module", 6)
 		misv := c.Choose("module.isvsvn", 3)
 		mstat := c.Choose("module.status", len(statuses))
 		m2 := c.Choose("module.level2", 5)
@@ -256,6 +256,13 @@ func runC04(r *mc.Run) {
 			ti.TdxModuleIdentities = nil
 		case 2:
 			ti.TdxModuleIdentities = []world.ModuleIdentity{{ID: "TDX_7f", Mrsigner: ms, Attributes: "0000000000000000", AttributesMask: "FFFFFFFFFFFFFFFF", TcbLevels: mlevels}}
+		case 3, 4, 5:
+			// the matching identity is NOT the last one listed: first of two, in the middle of three, first of three;
+			// the others would accept anything (one UpToDate level from isvsvn 0) or refuse anything
+			any := world.ModuleIdentity{ID: "TDX_7e", Mrsigner: ms, Attributes: "0000000000000000", AttributesMask: "FFFFFFFFFFFFFFFF", TcbLevels: []world.Level{{Tcb: world.Tcb{Isvsvn: world.IntP(0)}, TcbStatus: "UpToDate", TcbDate: "2028-01-01T00:00:00Z"}}}
+			none := world.ModuleIdentity{ID: "TDX_7f", Mrsigner: ms, Attributes: "0000000000000000", AttributesMask: "FFFFFFFFFFFFFFFF", TcbLevels: []world.Level{{Tcb: world.Tcb{Isvsvn: world.IntP(0)}, TcbStatus: "Revoked", TcbDate: "2028-01-01T00:00:00Z"}}}
+			own := world.ModuleIdentity{ID: mid, Mrsigner: ms, Attributes: "0000000000000000", AttributesMask: "FFFFFFFFFFFFFFFF", TcbLevels: mlevels}
+			ti.TdxModuleIdentities = [][]world.ModuleIdentity{{own, any}, {none, own, any}, {own, none, any}}[mod-3]
 		}
 		// identity fields
 		switch c.Choose("fmspc", 3) {
